@@ -192,11 +192,17 @@ func runCase(c *props.Case) (result string) {
 			}
 		}
 	}()
-	select {
-	case <-done:
-	case <-time.After(20 * time.Second):
-		fmt.Fprintf(os.Stderr, "HANG\n")
-		os.Exit(3)
+	snap := gosim.TakeSchedSnap()
+	for waiting := true; waiting; {
+		select {
+		case <-done:
+			waiting = false
+		case <-time.After(time.Second):
+			if v := gosim.StallVerdict(snap, 20*time.Second); v != "wait" {
+				fmt.Fprintf(os.Stderr, "HANG (%s)\n", v)
+				os.Exit(3)
+			}
+		}
 	}
 	return result
 }
